@@ -6,6 +6,7 @@ import (
 	"go/token"
 	"os"
 	"sort"
+	"strings"
 	"sync"
 	"unicode"
 	"unicode/utf8"
@@ -36,6 +37,7 @@ type FCtx struct {
 	Parent *FCtx
 	Call   *ssa.Call  // the spliced call instruction (nil for the root and for deferred closures)
 	Defer  *ssa.Defer // the defer statement whose function literal runs here (spliced at the function's exits)
+	Recv   ssa.Value  // for an interface method call resolved to Fn: the concrete receiver value
 	Fn     *ssa.Function
 	Depth  int
 }
@@ -158,10 +160,19 @@ func spliceTarget(in ssa.Instruction, ctx *FCtx) *ssa.Function {
 		return nil
 	}
 	f := call.Call.StaticCallee()
+	if f == nil && !call.Call.IsInvoke() {
+		// a call of a function value that can only be one function literal of the module
+		f = staticFuncValue(call.Call.Value, 0)
+	}
+	if f == nil && call.Call.IsInvoke() {
+		f, _ = devirtualise(call, ctx)
+	}
 	if f == nil || f.Blocks == nil || flatInModule == nil || !flatInModule(f) || !unexportedName(f) {
 		return nil
 	}
-	if f.Synthetic != "" || flatOpaque[f] {
+	// synthetic functions are not spliced, except instances of generic functions and the
+	// wrappers that forward a promoted method to the embedded field's method
+	if (f.Synthetic != "" && !strings.HasPrefix(f.Synthetic, "instance of") && !strings.HasPrefix(f.Synthetic, "wrapper for")) || flatOpaque[f] {
 		return nil
 	}
 	if ctx.Depth >= flatMaxDepth {
@@ -344,6 +355,9 @@ func (fl *Flat) build(ctx *FCtx) (entry *FB, rets []*FB) {
 	}
 	for _, sp := range splices {
 		sub := &FCtx{Parent: ctx, Call: sp.call, Defer: sp.dfr, Fn: sp.f, Depth: ctx.Depth + 1}
+		if sp.call != nil && sp.call.Call.IsInvoke() {
+			_, sub.Recv = devirtualise(sp.call, ctx)
+		}
 		fl.Ctxs = append(fl.Ctxs, sub)
 		if sp.call != nil {
 			fl.byCall[sp.call] = append(fl.byCall[sp.call], sub)
@@ -789,9 +803,8 @@ func (p CPath) stepIn(cur *FCtx, v ssa.Value) (ssa.Value, *FCtx, bool) {
 		}
 		for i, prm := range fn.Params {
 			if prm == x {
-				args := ctx.Call.Call.Args
-				if i < len(args) {
-					return args[i], ctx.Parent, true
+				if a := ctx.arg(i); a != nil {
+					return a, ctx.Parent, true
 				}
 			}
 		}
@@ -1141,8 +1154,8 @@ func flatAP(root *ssa.Function, v ssa.Value) AP {
 		}
 		var arg ssa.Value
 		for j, q := range prm.Parent().Params {
-			if q == prm && j < len(ctxs[0].Call.Call.Args) {
-				arg = ctxs[0].Call.Call.Args[j]
+			if q == prm && ctxs[0].arg(j) != nil {
+				arg = ctxs[0].arg(j)
 			}
 		}
 		if arg == nil {
@@ -1170,8 +1183,8 @@ func (fl *Flat) Val(v ssa.Value) ssa.Value {
 		}
 		var arg ssa.Value
 		for j, q := range prm.Parent().Params {
-			if q == prm && j < len(ctxs[0].Call.Call.Args) {
-				arg = ctxs[0].Call.Call.Args[j]
+			if q == prm && ctxs[0].arg(j) != nil {
+				arg = ctxs[0].arg(j)
 			}
 		}
 		if arg == nil {
@@ -1254,8 +1267,8 @@ func (fl *Flat) Origins(v ssa.Value) []ssa.Value {
 						continue
 					}
 					for j, q := range y.Parent().Params {
-						if q == y && j < len(ctx.Call.Call.Args) {
-							walk(ctx.Call.Call.Args[j], depth+1)
+						if q == y && ctx.arg(j) != nil {
+							walk(ctx.arg(j), depth+1)
 							n++
 						}
 					}
@@ -1512,4 +1525,144 @@ func reachesItself(b *ssa.BasicBlock) bool {
 		stack = append(stack, x.Succs...)
 	}
 	return false
+}
+
+// arg: the value bound to parameter i of the spliced function in this context.
+func (ctx *FCtx) arg(i int) ssa.Value {
+	if ctx == nil || ctx.Call == nil {
+		return nil
+	}
+	cc := &ctx.Call.Call
+	if cc.IsInvoke() {
+		if i == 0 {
+			return ctx.Recv
+		}
+		i--
+	}
+	if i >= 0 && i < len(cc.Args) {
+		return cc.Args[i]
+	}
+	return nil
+}
+
+// flatProg is the program (for method lookup); set by loadRepo.
+var flatProg *ssa.Program
+
+// devirtualise resolves an interface method call whose receiver is, through the
+// parameters of the enclosing spliced helpers, a value converted to the interface from a
+// known concrete type: the method of that type is what runs, and the converted value is
+// its receiver. (`sendCommand(ctx, s, cmd)` with `s *V2Session` and, inside,
+// `x.exchange(...)` on the interface parameter x.)
+func devirtualise(call *ssa.Call, ctx *FCtx) (*ssa.Function, ssa.Value) {
+	if flatProg == nil || !call.Call.IsInvoke() {
+		return nil, nil
+	}
+	v := call.Call.Value
+	cur := ctx
+	for i := 0; i < 16; i++ {
+		switch x := v.(type) {
+		case *ssa.Parameter:
+			if cur == nil || cur.Fn != x.Parent() || cur.Call == nil {
+				return nil, nil
+			}
+			idx := -1
+			for j, q := range cur.Fn.Params {
+				if q == x {
+					idx = j
+				}
+			}
+			a := cur.arg(idx)
+			if a == nil {
+				return nil, nil
+			}
+			v, cur = a, cur.Parent
+			continue
+		case *ssa.ChangeInterface:
+			v = x.X
+			continue
+		case *ssa.MakeInterface:
+			t := x.X.Type()
+			sel := flatProg.MethodSets.MethodSet(t).Lookup(call.Call.Method.Pkg(), call.Call.Method.Name())
+			if sel == nil {
+				return nil, nil
+			}
+			return flatProg.MethodValue(sel), x.X
+		}
+		return nil, nil
+	}
+	return nil, nil
+}
+
+// viewCallee: the function a call of root's view runs — its static callee, or, for an
+// interface method call resolved while the view was built, the method spliced there.
+func viewCallee(root *ssa.Function, call *ssa.Call) *ssa.Function {
+	if f := call.Call.StaticCallee(); f != nil {
+		return f
+	}
+	ctxs := flatOf(root).byCall[call]
+	if len(ctxs) == 0 {
+		return nil
+	}
+	f := ctxs[0].Fn
+	for _, c := range ctxs[1:] {
+		if c.Fn != f {
+			return nil
+		}
+	}
+	return f
+}
+
+// staticFuncValue: the function literal a function-typed value denotes when that is decided
+// by the code alone: the literal itself, a variable assigned once (read directly or as a
+// captured variable), or the result of a module function that returns one literal
+// (`count := newCounter(); … count()`).
+func staticFuncValue(v ssa.Value, depth int) *ssa.Function {
+	if depth > 6 {
+		return nil
+	}
+	switch x := v.(type) {
+	case *ssa.MakeClosure:
+		f, ok := x.Fn.(*ssa.Function)
+		if !ok || f.Parent() == nil {
+			return nil
+		}
+		return f
+	case *ssa.UnOp:
+		if x.Op != token.MUL {
+			return nil
+		}
+		var al *ssa.Alloc
+		switch a := x.X.(type) {
+		case *ssa.Alloc:
+			al = a
+		case *ssa.FreeVar:
+			al, _ = freeVarBinding(a).(*ssa.Alloc)
+		}
+		if al == nil {
+			return nil
+		}
+		if sv := singleStore(al); sv != nil {
+			return staticFuncValue(sv, depth+1)
+		}
+	case *ssa.Call:
+		g := x.Call.StaticCallee()
+		if g == nil || g.Blocks == nil || flatInModule == nil || !flatInModule(g) {
+			return nil
+		}
+		var out *ssa.Function
+		n := 0
+		for _, b := range g.Blocks {
+			if len(b.Instrs) == 0 {
+				continue
+			}
+			if ret, ok := b.Instrs[len(b.Instrs)-1].(*ssa.Return); ok && len(ret.Results) == 1 {
+				n++
+				out = staticFuncValue(ret.Results[0], depth+1)
+			}
+		}
+		if n == 1 {
+			return out
+		}
+	}
+	return nil
 }
